@@ -1,6 +1,7 @@
 package main
 
 import (
+	"sort"
 	"fmt"
 	"math/rand"
 	"strings"
@@ -201,6 +202,15 @@ func init() {
 				}
 				for _, d := range dnes {
 					all[d.Expr] = 0
+				}
+				if len(vals) >= 2 && k%3 == 0 {
+					// the caller assigned one key by hand, past the number of variables: the others must get keys nobody owns
+					names := make([]string, 0, len(vals))
+					for kk := range vals {
+						names = append(names, kk)
+					}
+					sort.Strings(names)
+					conf.VariableKeyMap[names[0]] = eval.VariableKey(len(all)/2 + 2)
 				}
 				eval.RegVarAndOp(all)(conf)
 				e, err, cpan := compileSafe(conf, res.Expr)
